@@ -19,8 +19,14 @@ CASES = [
     ('validateTypedInitializer.null_only_for_class_references', 'int a = null;', False),
     ('validateTypedInitializer.array_slot_accepts_same_array_type', 'B b = new B(); int[] arr = b;', False),
     # argument / assignment sites compare primitive tags themselves (not under contract): reported under their own labels
-    ('site.argument.primitive_parameter_rejects_class_value', 'B b = new B(); takesInt(b);', False),
+    ('call.arguments.accepted_value_has_the_declared_type', 'B b = new B(); takesInt(b);', False),
     ('assignment_statement.accepted_value_has_the_declared_type', 'B b = new B(); int x = 0; x = b;', False),
+    ('call.arguments.accepted_value_has_the_declared_type', 'int[] arr = {1,2}; takesInt(arr);', False),
+    ('call.arguments.accepted_value_has_the_declared_type', 'takesInt(1.5f);', False),
+    ('call.arguments.accepted_value_has_the_declared_type', 'takesInt(3); takesA(new Sub()); takesA(null);', True),
+    ('call.arguments.accepted_value_has_the_declared_type', 'takesInt(null);', False),
+    ('call.arguments.arity_mismatch_rejected_at_the_call', 'takesInt(1, 2);', False),
+    ('call.arguments.accepted_value_has_the_declared_type', 'B b = new B(); takesA(b);', False),
     ('isAssignableType.class_expected_needs_same_class_or_subclass', 'B b = new B(); takesA(b);', False),
     ('isAssignableType.class_expected_needs_same_class_or_subclass', 'Sub s = new Sub(); takesA(s);', True),
 ]
